@@ -203,6 +203,7 @@ class C04(PropBase):
     translators = ["unwind_consts.py"]
     bins = ["c05"]
     impl_timeout = 300
+    model_timeout = 3000     # the Coq-built scan layouts sit in the first shards; on a heavily loaded machine 900 s was not enough for the thorough tier
     rule = ("cases = well-formed synthetic threads: (a) scan-findable stacks laid out by the Coq builder scan_layout, depth 1..64, gaps up "
             "to the window edge (159 / 39 words; MIPS64 127); (b) frame-pointer chains, scan-findable and CFI-described stacks for every CPU "
             "(x86, amd64, arm, arm64, arm64_old, mips32, mips64) x OS (other, windows, ios), depth 1..64, 1-3 modules, also at the top of the "
